@@ -507,4 +507,42 @@ def rule_k(ctx: Ctx) -> None:
     wildcard_overlap_table(ctx, 'C15.k')
 
 
-RULES = [rule_a, rule_b, rule_c, rule_d, rule_e, rule_f, rule_g, rule_h, rule_i, rule_j, rule_k]
+def rule_l(ctx: Ctx) -> None:
+    """The walk of check_model meets the *same particle object* twice when a named group is referenced twice (the references share the group's
+    particles).  The two occurrences compete like any two particles with the same name - `(ref g)?, ref g` with g = (a) is `a?, a` - so identity of
+    the leaves is no reason to skip the comparison of their paths."""
+    rule = 'C15.l'
+    from .common import bool_atoms, bool_eval
+    import itertools
+    f = ctx.idx.func(f'{MODELS}.check_model')
+    ctx.analysed(f.qualname)
+    g = cfg_of(ctx, f)
+    inner = _memory_loop(g)
+    conts = [n for n in g.nodes if n.kind == 'continue' and any(n.ast is x for x in ast.walk(inner.ast))]
+    n = 0
+    for c in conts:
+        own = [x for x in g.nodes if x.kind == 'if' and any(m_ is c for m_, lab in g.succ[x] if lab == 'T')]
+        if not own:
+            continue
+        t = own[0].ast.test
+        atoms = bool_atoms(t)
+        ident = [a for a in atoms if a.replace(' ', '') in ('peise', 'eispe')]
+        if not ident:
+            continue
+        n += 1
+        # is the pair skipped *because of* identity, although the particles overlap?
+        skips = False
+        for bits in itertools.product((False, True), repeat=len(atoms)):
+            env = dict(zip(atoms, bits))
+            if env[ident[0]] and env.get('pe.is_overlap(e)', True) and bool_eval(t, env):
+                skips = True
+        ctx.ob(rule, 'check_model: two occurrences of a shared particle (a named group referenced twice) are compared like any overlapping pair', f.loc(c.ast), not skips,
+               '' if not skips else f'`{text(t)[:60]}` skips the pair when `{ident[0]}`: the particles of a group referenced twice are the same objects, so (ref g)?, ref g and '
+               '(ref g)*, ref g and (ref g | ref g) with g = (a) are accepted although a?, a is refused as a Unique Particle Attribution violation',
+               key='check_model|identity-skip')
+    ctx.note(f'{rule}: {n} identity shortcut(s) in the comparison loop of check_model')
+    ctx.ob(rule, 'check_model: the comparison loop was found', f.loc(inner.ast), inner is not None, '', key='check_model|loop', nontrivial=False)
+    ctx.explain('C15.l: truth table of the test behind each `continue` of the comparison loop - no assignment with `pe is e` true and `pe.is_overlap(e)` true may take the shortcut.')
+
+
+RULES = [rule_a, rule_b, rule_c, rule_d, rule_e, rule_f, rule_g, rule_h, rule_i, rule_j, rule_k, rule_l]
